@@ -207,6 +207,16 @@ def drive(cfg, observers=True, post_calls=3):
 
     storage_answers = []
     if observers:
+        # obtaining an iterator (what a for loop does first) requests no
+        # action yet
+        try:
+            it = iter(sched)
+            if it is not sched and not hasattr(it, "__next__"):
+                run.obs_fail(["C09"], "iter_not_iterator",
+                             f"iter(schedule) returned {type(it).__name__}", -1)
+        except Exception as e:  # noqa: BLE001
+            run.obs_fail(["C09", "C02"], "iter_raises",
+                         f"iter(schedule) raised {type(e).__name__}: {e}", -1)
         ex, rn = read_flags("before first next()")
         if ex:
             run.obs_fail(["C09"], "exhausted_before_start",
